@@ -2,29 +2,39 @@
 
 Explicit exploration of restart histories on the real implementation.  For every
 configuration (Optimizer x torch optimiser x scheduler x dtype x tensor kind x shape
-x parameter groups x checkpoint mode; MCMC x operator set x adaptor combination x
-dtype; four CLI-generated programs) one uninterrupted run of N iterations is executed
-through the real entry point `torchtree.torchtree.main` (in-process, on an in-memory
-file system) with a checkpoint after every iteration.  The harness wraps
-`run` / `save_full_state` of the two algorithm classes from outside and records, at
-every checkpoint, the file written, `state_dict()`, every parameter (value, dtype,
-nn-ness) and the state of the pseudo-random generator.
+x parameter groups x checkpoint mode / frequency; MCMC x operator set x adaptor
+combination x dtype; four programs written by torchtree-cli) one uninterrupted run of N
+iterations is executed through the real entry point `torchtree.torchtree.main`
+(in-process, on an in-memory file system) with a checkpoint after every iteration.  The
+harness wraps `run` / `save_full_state` of the two algorithm classes from outside and
+records, at every checkpoint, the file written, `state_dict()`, every parameter (value,
+dtype, nn-ness, shape) and the state of the pseudo-random generator.
 
-Then EVERY interruption point k = 1..N (and every pair k1 < k2 of consecutive
-interruptions) is explored: `main` is run again with `-c <file k>`, the generator is
-put back to its state at k when the algorithm starts (torchtree does not checkpoint
-the generator; that is what "deterministic run" means here) and the run continues to N.
+Then EVERY interruption point k = 1..N, every pair k1 < k2 (and, for some configurations,
+every triple) of successive interruptions is explored: `main` is run again with
+`-c <file k>`, the generator is put back to its state at k at the moment the algorithm
+starts (torchtree does not checkpoint the generator; that is what makes the run
+"deterministic" in the sense of the property) and the run continues to N; the next
+interruption restarts from the file the RESUMED run wrote.
 
-Oracle (differential, the uninterrupted run is the reference):
-  restart_raises      restarting raised / the algorithm was never started
+Oracle (differential: the uninterrupted run is the reference; nothing is re-implemented)
+  checkpoint_write_fails  the uninterrupted run dies while writing a checkpoint
+  restart_raises      restarting raised, or main() swallowed an error and never started
+                      the algorithm
   param_roundtrip     a parameter differs (value, dtype, nn, shape) right after loading
-  state_roundtrip     state_dict() right after loading differs from the one at k
-                      (deep: key types, tensor dtypes, values; tuple == list; the
-                      iteration counter is judged by its effect, see next)
-  iteration_counter   the resumed run executes other iterations than k+1..N
-                      (number of iterations, iteration numbers written to the files)
-  trajectory          the parameter states after k differ from those of the
-                      uninterrupted run (bit-exact)
+  state_roundtrip     state_dict() right after loading differs from the one at k (deep: key
+                      types, tensor dtypes, exact values; tuple == list; conversions torch's
+                      own Optimizer.load_state_dict performs are not counted)
+  resumed_run_raises  the resumed run raises where the uninterrupted one did not
+  iteration_counter   the resumed run does not execute exactly the iterations k+1..N
+                      (their number, the iteration numbers / file names it writes)
+  trajectory          a parameter state after k differs from the uninterrupted run
+                      (bit-exact), or - the parameters still agreeing - the run state does:
+                      had everything the run needs been restored, the resumed run would be
+                      the same deterministic run (this is how state that state_dict() does
+                      not even contain is observed)
+A failure right after loading ends the judgement of that history (what follows is a
+consequence); the iteration counter is judged independently.
 """
 import contextlib
 import io
@@ -36,7 +46,7 @@ import sys
 import traceback
 
 from mc.env import fsim, tt
-from mc.runner import chunked, jdump, pmap
+from mc.runner import jdump, pmap
 
 LEVEL = "model_checking"
 SPEC = fsim.PREFIX + "spec.json"
@@ -121,7 +131,7 @@ def observe_params(algo):
 
 def pclass(path):
     """class of a state path: first three components, numbers replaced by N"""
-    parts = [p for p in re.sub(r"\[\d+\]", "", path).split(".") if p]
+    parts = [p for p in re.sub(r"\[\d*\]|\{\}", "", path).split(".") if p]
     return re.sub(r"\d+", "N", ".".join(parts[:3]))
 
 
@@ -150,6 +160,32 @@ def diff_params(want, got):
     return out
 
 
+_STATE_TENSOR = re.compile(r"^\.optimizer\.state\.<int>(\d+)\.(\w+)$")
+
+
+def split_torch_casts(d, params):
+    """torch.optim.Optimizer.load_state_dict itself converts every floating-point state tensor
+    except `step` to the dtype of its parameter (an in-memory torch round trip does the same,
+    e.g. ASGD's eta/mu under a float64 default with float32 parameters).  Such entries are
+    not a loss of the torchtree checkpoint: -> (other differences, converted entries)."""
+    import torch
+
+    rest, casts = [], []
+    for entry in d:
+        p, kind, w, g = entry
+        m = _STATE_TENSOR.match(p)
+        ok = False
+        if m and kind == "changed" and w[0] == g[0] == "tensor" and m.group(2) != "step":
+            i = int(m.group(1))
+            if i < len(params) and g[1] == params[i][1] and w[1] != g[1] and w[2:4] == g[2:4]:
+                dt = getattr(torch, g[1].split(".")[-1])
+                conv = tuple(repr(v) for v in torch.tensor([float(v) for v in w[4]],
+                                                           dtype=torch.float64).to(dt).tolist())
+                ok = conv == g[4]
+        (casts if ok else rest).append(entry)
+    return rest, casts
+
+
 def _short(v):
     s = str(v)
     return s if len(s) <= 120 else s[:117] + "..."
@@ -169,6 +205,7 @@ class Rec:
         self.finished = False
         self.error = None
         self.where = None
+        self.frames = []
         self.logged = []
 
 
@@ -277,6 +314,7 @@ def run_main(files, argv, rng_state=None, seed=None):
             except Exception as e:
                 rec.error = f"{type(e).__name__}: {e}"
                 tb = traceback.extract_tb(e.__traceback__)
+                rec.frames = [f.name for f in tb]
                 inside = [f for f in tb if "/torchtree/" in f.filename]
                 if inside:
                     f = inside[-1]
@@ -377,7 +415,7 @@ def opt_program(cfg, seed):
         "id": "joint", "type": "JointDistributionModel",
         "distributions": [
             dist("like", "Normal", param("x", xv, cfg), loc=0.3, scale=1.2),
-            dist("prior", "Gumbel", param("y", yv, cfg, like="x"), loc=0.2, scale=0.8),
+            dist("prior", "Cauchy", param("y", yv, cfg, like="x"), loc=0.2, scale=0.8),
         ],
     }
     algo, options = ALGOS[cfg["algo"]]
@@ -414,7 +452,7 @@ def hmc_operator(kind, cfg):
     op = {
         "id": "op.hmc", "type": "HMCOperator", "joint": "joint", "parameters": ["x", "w"],
         "weight": 1.0,
-        "integrator": {"id": "leapfrog", "type": "LeapfrogIntegrator", "steps": 3,
+        "integrator": {"id": "leapfrog", "type": "LeapfrogIntegrator", "steps": 2,
                        "step_size": 0.2},
         "mass_matrix": mass, "adaptors": [],
     }
@@ -440,6 +478,8 @@ def hmc_operator(kind, cfg):
             op["adaptors"].append(a)
         elif f == "noadapt":
             op["disable_adaptation"] = True
+        elif f == "frss":
+            op["find_reasonable_step_size"] = True
         else:
             raise ValueError(kind)
     return op
@@ -469,21 +509,60 @@ def mcmc_operator(kind, cfg):
     return op
 
 
+def gmrf_program(cfg, seed):
+    """skygrid prior of the CLI-generated program without the tree likelihood: the tree is
+    fixed, the block-update operator moves the log population sizes and the precision"""
+    with open(os.path.join(GRAPHS, CLI_GRAPHS["cli-mcmc-skygrid"])) as fp:
+        spec = json.load(fp)["spec"]
+    taxa = [el for el in spec if el.get("id") == "taxa"][0]
+    joint = [el for el in spec if el.get("id") == "joint"][0]
+    tree = joint["distributions"][0]["tree_model"]
+    prior = {d["id"]: d for d in joint["distributions"][1]["distributions"]}
+    theta = prior["coalescent"]["theta"]["x"]
+    theta.pop("full", None)
+    theta["tensor"] = [3.0 + offs(seed, 1), 2.5 - offs(seed, 2), 2.8 + offs(seed, 3)]
+    prior["gmrf"]["precision"]["x"]["tensor"] = [1.5]
+    ops = []
+    for k in cfg["ops"]:
+        base, _, flag = k.partition("-")
+        if base == "gmrf":
+            op = {"id": "op.gmrf", "type": "GMRFPiecewiseCoalescentBlockUpdatingOperator",
+                  "coalescent": "coalescent", "gmrf": "gmrf", "weight": 2.0, "scaler": 1.3}
+        elif base == "slideprec":
+            op = {"id": "op.prec", "type": "SlidingWindowOperator",
+                  "parameters": "gmrf.precision.unres", "weight": 1.0, "width": 0.5}
+        else:
+            raise ValueError(k)
+        if flag == "noadapt":
+            op["disable_adaptation"] = True
+        ops.append(op)
+    return [taxa, tree,
+            {"id": "joint", "type": "JointDistributionModel",
+             "distributions": [prior["coalescent"], prior["gmrf"], prior["gmrf.precision.prior"],
+                               "gmrf.precision"]},
+            {"id": "mcmc", "type": "MCMC", "joint": "joint", "iterations": cfg["N"], "every": 0,
+             "checkpoint": CKPT, "checkpoint_frequency": cfg["freq"], "operators": ops}]
+
+
 def mcmc_program(cfg, seed):
+    if cfg["ops"][0].startswith("gmrf"):
+        return gmrf_program(cfg, seed)
     a, b = 0.5 + offs(seed, 1), 1.5 - offs(seed, 2)
     c = {"dtype": cfg["dtype"]}
     z0 = 0.2 + offs(seed, 4) * 0.4
-    joint = {
-        "id": "joint", "type": "JointDistributionModel",
-        "distributions": [
-            dist("like", "Normal", param("x", [a, b], c), loc=0.3, scale=1.2),
-            dist("prior.w", "Gumbel", param("w", [0.4 - offs(seed, 5)], c), loc=0.2, scale=0.8),
-            dist("prior.y", "Gamma", param("y", [0.7 + offs(seed, 3)], c),
-                 concentration=2.0, rate=3.0),
-            dist("prior.z", "Dirichlet", param("z", [z0, 0.5, 0.5 - z0], c),
-                 concentration=[2.0, 3.0, 1.5]),
-        ],
-    }
+    kinds = {k.split("-")[0] for k in cfg["ops"]}
+    ds = []
+    if kinds & {"slide", "hmc"}:
+        ds.append(dist("like", "Normal", param("x", [a, b], c), loc=0.3, scale=1.2))
+        ds.append(dist("prior.w", "Cauchy", param("w", [0.4 - offs(seed, 5)], c),
+                       loc=0.2, scale=0.8))
+    if "scaler" in kinds:
+        ds.append(dist("prior.y", "Gamma", param("y", [0.7 + offs(seed, 3)], c),
+                       concentration=2.0, rate=3.0))
+    if "dirichlet" in kinds:
+        ds.append(dist("prior.z", "Dirichlet", param("z", [z0, 0.5, 0.5 - z0], c),
+                       concentration=[2.0, 3.0, 1.5]))
+    joint = {"id": "joint", "type": "JointDistributionModel", "distributions": ds}
     ops = [mcmc_operator(k, cfg) for k in cfg["ops"]]
     m = {"id": "mcmc", "type": "MCMC", "joint": "joint", "iterations": cfg["N"], "every": 0,
          "checkpoint": CKPT, "checkpoint_frequency": cfg["freq"], "operators": ops}
@@ -555,7 +634,9 @@ def histories(n_saves, tier, cfg):
     hs = [[k] for k in ks]
     depth = cfg.get("depth", 2)
     if depth >= 2:
-        hs += [list(p) for p in itertools.combinations(ks, 2)]
+        # every pair of interruptions (in the longer runs: at most `gap` checkpoints apart)
+        gap = cfg.get("gap") or n_saves
+        hs += [list(p) for p in itertools.combinations(ks, 2) if p[1] - p[0] <= gap]
     if depth >= 3:
         hs += [list(p) for p in itertools.combinations(ks, 3)]
     return hs
@@ -597,18 +678,25 @@ def compare(cfg, base, ref, k, res):
         out.append(("param_roundtrip", dp[0][0],
                     f"after loading checkpoint {k}: " + "; ".join(t for _, t in dp[:3]) + later))
         return out  # everything downstream is a consequence
-    d = diff_state(ref["state"], res.entry["state"])
+    d, torch_casts = split_torch_casts(diff_state(ref["state"], res.entry["state"]),
+                                       ref["params"])
     if d:
-        classes = []
-        for p, kind, w, g in d:
-            c = f"{pclass(p)}:{kind}"
-            if c not in classes:
-                classes.append(c)
-        txt = "; ".join(f"{p} {kind} (saved {_short(w)}, restored {_short(g)})"
-                        for p, kind, w, g in d[:4])
-        out.append(("state_roundtrip", classes[0],
-                    f"state_dict() after loading checkpoint {k} differs in {len(d)} "
-                    f"entries, classes {classes[:6]}: {txt}" + later))
+        # one report per component of the state (optimizer.state, scheduler.<key>, ...)
+        groups = {}
+        for entry in d:
+            c = pclass(entry[0])
+            groups.setdefault(".".join(c.split(".")[:2]), []).append(entry)
+        for comp, entries in groups.items():
+            classes = []
+            for p, kind, w, g in entries:
+                c = f"{pclass(p)}:{kind}"
+                if c not in classes:
+                    classes.append(c)
+            txt = "; ".join(f"{p} {kind} (saved {_short(w)}, restored {_short(g)})"
+                            for p, kind, w, g in entries[:3])
+            out.append(("state_roundtrip", classes[0],
+                        f"state_dict() after loading checkpoint {k} differs in {len(entries)} "
+                        f"entries of {comp} ({classes[:4]}): {txt}" + later))
     if res.error and not (base.error == res.error and base.where == res.where):
         # (an uninterrupted run that fails after its last iteration - e.g. the summary of an
         # MCMC in which some operator was never selected divides by zero - is reproduced by
@@ -617,7 +705,10 @@ def compare(cfg, base, ref, k, res):
             out.append(("resumed_run_raises", err_class(res.error),
                         f"run resumed from checkpoint {k} raised {res.error} [{res.where}]"))
         return out
-    roundtrip_ok = not out
+    # (state tensors torch itself converts on load: nothing exact can be demanded afterwards)
+    roundtrip_ok = not out and not torch_casts
+    if torch_casts and not out:
+        out.append(("_torch_cast", None, None))
     expected = base.saves[k:]
     got = res.saves
     labels_ok = len(got) == len(expected) and all(
@@ -665,10 +756,16 @@ def compare(cfg, base, ref, k, res):
     return out
 
 
+WRITE_PATH = {"save_full_state", "save_parameters", "state_dict", "_state_dict", "default",
+              "dump", "iterencode"}
+
+
 def nontrivial(base, k):
-    """the state at checkpoint k differs from the state of a freshly built algorithm"""
+    """at checkpoint k both the algorithm state (state_dict without the iteration counter) and
+    the parameters differ from those of a freshly built program, i.e. restoring either of
+    them from the specification instead of the checkpoint would be wrong"""
     s = base.saves[k - 1]
-    return s["state"] != base.entry["state"] or s["params"] != base.entry["params"]
+    return s["state"] != base.entry["state"] and s["params"] != base.entry["params"]
 
 
 def explore(cfg, seed, tier, only=None):
@@ -677,14 +774,24 @@ def explore(cfg, seed, tier, only=None):
     rseed = 7919 + seed
     base = run_main({SPEC: prog}, argv_of(cfg), seed=rseed)
     stats = {"mains": 1, "restarts": 0, "histories": 0, "nontrivial": 0, "states": 0,
-             "base_ok": True, "base_error": None, "accepts": None}
+             "base_ok": True, "base_error": None, "torch_cast_restarts": 0}
     n_expected = cfg["N"] // cfg["freq"]
     if len(base.saves) != n_expected:
-        # the configuration cannot be run at all: nothing to resume
         stats["base_ok"] = False
         stats["base_error"] = (base.error or f"{len(base.saves)} checkpoints, expected "
                                f"{n_expected}") + f" [{base.where}]"
-        return {"viols": [], "stats": stats}
+        if set(base.frames) & WRITE_PATH:
+            # the uninterrupted run dies while writing a checkpoint
+            return {"viols": [{
+                "case": {"cfg": cfg, "history": [], "seed": seed},
+                "detail": f"{cfg_name(cfg)}: checkpoint {len(base.saves) + 1} cannot be written: "
+                          f"{stats['base_error']}",
+                "sig": sig_of(cfg, "checkpoint_write_fails", err_class(base.error or ""))}],
+                "stats": stats}
+        # every declared configuration runs on the code this check was built for; one that
+        # does not run is never silently dropped
+        raise RuntimeError(f"declared configuration cannot be run: {cfg_name(cfg)}: "
+                           f"{stats['base_error']}")
     if base.error:
         stats["base_tail_error"] = f"{base.error} [{base.where}]"
     # the harness owns the nondeterminism: the same seed must reproduce the run exactly
@@ -696,8 +803,16 @@ def explore(cfg, seed, tier, only=None):
     distinct = {jdump([sorted(s["state"].items()), s["params"]]) for s in base.saves}
     stats["states"] = len(distinct)
     stats["moved"] = len({jdump(s["params"]) for s in base.saves})
+    last = base.saves[-1]["state"]
+    used = {}
+    i = 0
+    while f".operators[{i}].id" in last:
+        n = last[f".operators[{i}].accept"][1] + last[f".operators[{i}].reject"][1]
+        used[last[f".operators[{i}].id"][1]] = [n, last[f".operators[{i}].accept"][1]]
+        i += 1
+    stats["operators"] = used
     viols = []
-    hs = histories(len(base.saves), tier, cfg) if only is None else [only]
+    hs = histories(len(base.saves), tier, cfg) if only is None else ([only] if only else [])
     for h in hs:
         stats["histories"] += 1
         cur, shift = base, 0  # `cur.saves[k - shift - 1]` is the checkpoint of ordinal k
@@ -711,10 +826,18 @@ def explore(cfg, seed, tier, only=None):
                                     or ref["state"] != base.saves[k - 1]["state"]):
                 break  # the previous generation already deviated here (reported by [.., k'])
             files = {SPEC: prog, ref["file"]: ref["content"]}
-            res = run_main(files, argv_of(cfg, ref["file"]), rng_state=ref["rng"])
+            # (seeded as well: whatever is drawn while the program is being built must not
+            # depend on what this worker process did before)
+            res = run_main(files, argv_of(cfg, ref["file"]), rng_state=ref["rng"],
+                           seed=rseed + 1000 * k)
             stats["mains"] += 1
             stats["restarts"] += 1
             bad = compare(cfg, base, base.saves[k - 1], k, res)
+            if any(b[0] == "_torch_cast" for b in bad):
+                stats["torch_cast_restarts"] += 1
+                bad = [b for b in bad if b[0] != "_torch_cast"]
+                if not bad:
+                    break  # cannot be continued exactly
             if bad:
                 break
             cur, shift = res, k
@@ -733,7 +856,7 @@ def explore(cfg, seed, tier, only=None):
 
 def cfg_name(cfg):
     keys = ("part", "graph", "algo", "sched", "ops", "dtype", "nn", "shape", "groups", "all",
-            "freq", "N")
+            "freq", "N", "depth")
     return "/".join(f"{k}={cfg[k]}" for k in keys if k in cfg)
 
 
@@ -741,7 +864,7 @@ def cfg_name(cfg):
 # the declared space
 # ---------------------------------------------------------------------------------
 
-HMC_KINDS = ["hmc", "hmc-noadapt", "hmc-as", "hmc-asr", "hmc-da", "hmc-mmd", "hmc-mmf",
+HMC_KINDS = ["hmc", "hmc-noadapt", "hmc-frss", "hmc-as", "hmc-asr", "hmc-da", "hmc-mmd", "hmc-mmf",
              "hmc-as-mmd", "hmc-as-mmf", "hmc-da-mmd", "hmc-da-mmf",
              "hmc-mmw", "hmc-mms", "hmc-mmr"]
 BASIC_OPS = ["slide", "scaler", "dirichlet"]
@@ -749,28 +872,31 @@ BASIC_OPS = ["slide", "scaler", "dirichlet"]
 
 def configurations(tier):
     thorough = tier == "thorough"
-    N = 10 if thorough else 6
+    N = 8 if thorough else 6
     cfgs = []
 
     def opt(algo, sched="none", dtype="f64", nn=False, shape="1d", groups=False, all_=False,
-            freq=1, n=N, depth=2):
+            freq=1, n=None, depth=2, gap=None):
         cfgs.append({"part": "optimizer", "algo": algo, "sched": sched, "dtype": dtype,
                      "nn": nn, "shape": shape, "groups": groups, "all": all_, "freq": freq,
-                     "N": n, "depth": depth})
+                     "N": n or N, "depth": depth, "gap": gap})
 
     # A: every optimiser x every scheduler
     for algo in ALGOS:
         for sched in SCHEDS:
             opt(algo, sched)
-    # B: every optimiser x dtype x tensor kind (x scheduler none / the CLI one)
+    # B: every optimiser x dtype x tensor kind (with the scheduler the CLI emits; thorough:
+    #    also without)
     for algo in ALGOS:
         for dtype in DTYPES:
             for nn in (False, True):
-                for sched in ("none", "LambdaLR"):
+                for sched in (("none", "LambdaLR") if thorough else ("LambdaLR",)):
                     if (dtype, nn) != ("f64", False):
                         opt(algo, sched, dtype, nn)
-    # C: shapes, parameter groups, checkpoint mode and frequency on representative optimisers
-    reps = list(ALGOS) if thorough else ["SGD", "SGD-momentum", "Adam", "Adagrad", "LBFGS"]
+    # C: shapes, parameter groups, checkpoint mode and frequency
+    reps = ["SGD", "SGD-momentum", "Adam", "Adagrad", "LBFGS"]
+    if thorough:
+        reps += ["RMSprop-centered", "Adam-amsgrad", "ASGD", "Adafactor", "LBFGS-wolfe"]
     for algo in reps:
         for shape, groups, all_, freq in itertools.product(("1d", "2d"), (False, True),
                                                            (False, True), (1, 2)):
@@ -781,42 +907,57 @@ def configurations(tier):
             if (shape, groups, all_, freq) != ("1d", False, False, 1):
                 for dtype, nn in (("f64", False), ("f32spec", True)):
                     opt(algo, "StepLR", dtype, nn, shape, groups, all_, freq)
-    if thorough:
-        for algo in ("SGD-momentum", "Adam", "LBFGS"):
-            opt(algo, "StepLR", depth=3)
+    # three consecutive interruptions
+    for algo in (("SGD-momentum", "Adam", "LBFGS", "RMSprop-centered") if thorough else ("Adam",)):
+        opt(algo, "StepLR", n=6, depth=3)
 
-    def mc(ops, dtype="f64", freq=1, n=None, depth=2):
-        hm = any(o.startswith("hmc") and "mm" in o for o in ops)
-        cfgs.append({"part": "mcmc", "ops": list(ops), "dtype": dtype, "freq": freq,
-                     "N": n or (12 if hm or len(ops) > 1 else N) + (4 if thorough and hm else 0),
-                     "depth": depth})
+    def mc(ops, dtype="f64", freq=1, n=None, depth=2, gap=None):
+        mm = any(o.startswith("hmc") and "mm" in o for o in ops)
+        if n is None:
+            # a mass matrix is first re-estimated after 6 iterations
+            n = (14 if thorough else 10) if (mm or len(ops) > 1) else N
+        if gap is None and n > 8:
+            gap = 4 if thorough else 3
+        cfgs.append({"part": "mcmc", "ops": list(ops), "dtype": dtype, "freq": freq, "N": n,
+                     "depth": depth, "gap": gap})
 
     # D: every operator type alone, every adaptor combination, every dtype
     singles = BASIC_OPS + [o + "-noadapt" for o in BASIC_OPS] + ["slide-window"] + HMC_KINDS
     for o in singles:
         for dtype in ("f64", "f32cli", "f32spec"):
             mc([o], dtype)
+    for ops in (["gmrf"], ["gmrf-noadapt"], ["gmrf", "slideprec"]):
+        for dtype in ("f64", "f32cli"):
+            mc(ops, dtype, n=N + 2 * (len(ops) - 1))
     # E: operator mixtures
-    mixes = [BASIC_OPS, BASIC_OPS + ["hmc"], BASIC_OPS + ["hmc-as-mmd"], ["slide", "hmc-da-mmf"],
-             ["scaler", "dirichlet", "hmc-da-mmd"]]
     if thorough:
         mixes = []
         for r in range(2, 5):
             for sub in itertools.combinations(BASIC_OPS + ["hmc-as-mmd"], r):
                 mixes.append(list(sub))
         for h in HMC_KINDS:
-            mixes.append(BASIC_OPS + [h])
+            if BASIC_OPS + [h] not in mixes:
+                mixes.append(BASIC_OPS + [h])
+    else:
+        mixes = [BASIC_OPS, BASIC_OPS + ["hmc"], BASIC_OPS + ["hmc-as-mmd"],
+                 ["slide", "hmc-da-mmf"], ["scaler", "dirichlet", "hmc-da-mmd"]]
     for ops in mixes:
         for dtype in ("f64", "f32cli"):
             mc(ops, dtype)
-    mc(BASIC_OPS, freq=2)
-    mc(["hmc-as-mmd"], freq=3)
+    mc(BASIC_OPS, freq=2, n=12)
+    mc(["hmc-as-mmd"], freq=3, n=12)
+    mc(["slide"], n=6, depth=3)
+    if thorough:
+        mc(["hmc-da-mmd"], n=6, depth=3)
+        # the variance window of the mass matrix adaptor is 100 samples long
+        mc(["hmc-mmw"], n=104, depth=1)
     # F: programs written by torchtree-cli
     for g in CLI_GRAPHS:
         for freq in (1, 2):
-            cfgs.append({"part": "cli", "graph": g, "freq": freq, "dtype": "f64",
-                         "N": (8 if thorough else 6) if "mcmc" not in g else (16 if thorough else 12),
-                         "depth": 2 if freq == 1 else 1})
+            n = (8 if thorough else 6) if "mcmc" not in g else (14 if thorough else 10)
+            cfgs.append({"part": "cli", "graph": g, "freq": freq, "dtype": "f64", "N": n,
+                         "depth": 2 if freq == 1 else 1,
+                         "gap": None if n <= 8 else (4 if thorough else 3)})
     keys = [jdump(c) for c in cfgs]
     assert len(set(keys)) == len(keys), "duplicate configuration"
     return cfgs
@@ -842,63 +983,110 @@ def run(run):
     n = 64
     chunks = [items[i::n] for i in range(n)]
     res = pmap(_work, [c for c in chunks if c])
-    tot = {"mains": 0, "restarts": 0, "histories": 0, "nontrivial": 0, "states": 0}
-    unrunnable = []
+    tot = {"mains": 0, "restarts": 0, "histories": 0, "nontrivial": 0, "states": 0,
+           "torch_cast_restarts": 0}
     per_part = {}
-    samples = []
+    op_use = {}
+    tail_errors = []
+    write_failures = 0
     viols = []
+    expected_histories = 0
     for chunk in res:
         for cfg, r in chunk:
             st = r["stats"]
             for k in tot:
                 tot[k] += st[k]
             pp = per_part.setdefault(cfg["part"], {"configurations": 0, "histories": 0,
-                                                   "not_runnable": 0})
+                                                   "restarts": 0, "checkpointed_states": 0})
             pp["configurations"] += 1
             pp["histories"] += st["histories"]
+            pp["restarts"] += st["restarts"]
+            pp["checkpointed_states"] += st["states"]
             if not st["base_ok"]:
-                pp["not_runnable"] += 1
-                unrunnable.append({"cfg": cfg_name(cfg), "error": st["base_error"]})
+                write_failures += 1
+            else:
+                expected_histories += len(histories(cfg["N"] // cfg["freq"], run.tier, cfg))
+            if st.get("base_tail_error"):
+                tail_errors.append({"cfg": cfg_name(cfg), "error": st["base_tail_error"]})
+            for op_id, (n_used, n_acc) in st.get("operators", {}).items():
+                u = op_use.setdefault(op_id, {"configurations": 0, "selected_in": 0,
+                                              "accepted_in": 0})
+                u["configurations"] += 1
+                u["selected_in"] += n_used > 0
+                u["accepted_in"] += n_acc > 0
             viols += r["viols"]
-    order = {"restart_raises": 0, "resumed_run_raises": 1, "param_roundtrip": 2,
-             "state_roundtrip": 3, "trajectory": 4, "iteration_counter": 5}
+    if tot["histories"] != expected_histories:
+        raise RuntimeError(f"enumeration incomplete: {tot['histories']} of {expected_histories}")
+    order = {"checkpoint_write_fails": 0, "restart_raises": 0, "resumed_run_raises": 1,
+             "param_roundtrip": 2, "state_roundtrip": 3, "trajectory": 4, "iteration_counter": 5}
     viols.sort(key=lambda v: (order.get(v["sig"]["check"], 9), len(v["case"]["history"]),
                               jdump(v["sig"])))
+    # the first reports shown are one per class of failure, then the rest
+    rank, nth = {}, []
+    for v in viols:
+        c = (v["sig"]["part"], v["sig"]["check"], v["sig"]["what"])
+        nth.append(rank.get(c, 0))
+        rank[c] = rank.get(c, 0) + 1
+    viols = [v for _, _, v in sorted(zip(nth, range(len(viols)), viols),
+                                     key=lambda t: (t[0], t[1]))]
     run.absorb(viols)
-    for c in (cfgs[0], cfgs[len(cfgs) // 2], cfgs[-1]):
-        samples.append({"cfg": c, "history": [1, 3], "argv": argv_of(c, CKPT)})
-    samples.append({"program": program(cfgs[-1 - len(CLI_GRAPHS) * 2], run.seed)})
+    classes = {}
+    for v in viols:
+        c = "/".join((v["sig"]["part"], v["sig"]["check"], str(v["sig"]["what"])))
+        classes[c] = classes.get(c, 0) + 1
+    pick = [cfgs[0], [c for c in cfgs if c["part"] == "optimizer" and c["dtype"] == "f32like"][0],
+            [c for c in cfgs if c["part"] == "mcmc" and len(c["ops"]) > 1][0], cfgs[-1]]
+    samples = [{"cfg": c, "history": [1, 3] if c.get("depth", 2) > 1 else [2],
+                "argv": ["torchtree"] + argv_of(c, CKPT)} for c in pick]
+    samples.append({"program_of": cfg_name(pick[2]), "program": program(pick[2], run.seed)})
     cov = {
         "states": tot["states"],
         "transitions": tot["restarts"],
         "traces_validated_against_impl": tot["mains"],
         "evaluations": tot["histories"],
         "distinct_nontrivial": tot["nontrivial"],
-        "rule": "one evaluation = one (configuration, restart history) pair, every history being "
-                "every interruption point k=1..N and every pair k1<k2 (triples where stated) of "
-                "checkpoints of an N-iteration run with a checkpoint after every iteration; "
-                "non-trivial = at every interruption point of the history the checkpointed state "
-                "(state_dict + parameters) differs from the state of a freshly built algorithm; "
-                "states = distinct checkpointed run states, transitions = restarts through "
-                "torchtree.main -c, traces = executions of torchtree.main",
+        "rule": "one evaluation = one (configuration, restart history) pair; the histories of a "
+                "configuration are every interruption point k=1..N, every pair k1<k2 (in runs "
+                "longer than 8 checkpoints: at most `gap` apart) and, where depth=3, every triple, "
+                "of an N-iteration run that writes a checkpoint after every iteration (every "
+                "`freq` iterations where stated); non-trivial = at every interruption point of "
+                "the history both the algorithm state (state_dict without the counter) and the "
+                "parameters differ from those of a freshly built program; states = distinct "
+                "checkpointed run states, transitions = restarts through `torchtree -c`, "
+                "traces = executions of torchtree.main (each uninterrupted run twice)",
         "exhaustive": True,
         "configurations": len(cfgs),
+        "histories_expected": expected_histories,
         "per_part": per_part,
-        "not_runnable": unrunnable,
+        "space": {
+            "optimisers": list(ALGOS), "schedulers": list(SCHEDS), "dtypes": list(DTYPES),
+            "operators": BASIC_OPS + ["gmrf block update"] + HMC_KINDS,
+            "cli_programs": {k: v for k, v in CLI_GRAPHS.items()},
+        },
+        "operator_use": op_use,
+        "uninterrupted_runs_failing_after_last_iteration": tail_errors,
+        "uninterrupted_runs_failing_in_checkpoint_write": write_failures,
+        "restarts_not_judged_exactly_because_torch_converts_state": tot["torch_cast_restarts"],
+        "violation_classes": classes,
         "samples": samples,
         "tolerance": "none: parameter and state tensors are compared bit-exactly (repr of every "
-                     "element), dictionary keys with their types; tuple == list",
+                     "element) with dtype, shape and nn-ness, dictionary keys with their types; "
+                     "tuple == list; the iteration counter is judged by the iterations the "
+                     "resumed run executes and the numbers it writes",
         "explanation": "every trace is an execution of the real entry point on the real objects; "
                        "no separate model",
     }
     return run.finish(cov, assumptions=[
         "deterministic run = the torch generator is put back to its state at the checkpoint when "
-        "the resumed algorithm starts (torchtree does not checkpoint the generator)",
+        "the resumed algorithm starts (torchtree does not checkpoint the generator); the same "
+        "seed reproduces every uninterrupted run exactly (asserted)",
         "float values survive JSON exactly (repr round trip), so bit-exact comparison is demanded",
-        "configurations whose uninterrupted run cannot be executed at all are listed under "
-        "not_runnable and not judged",
-        "the HMC runnable (inference/hmc/hmc.py) saves parameters only and has no load_state_dict; "
-        "convergence monitors and loggers are outside the statement",
+        "state tensors that torch.optim.Optimizer.load_state_dict itself converts to the dtype "
+        "of their parameter (ASGD eta/mu with float32 parameters under a float64 default) are "
+        "not counted as lost; those restarts are not continued",
+        "the HMC runnable (inference/hmc/hmc.py) saves parameters only and has no "
+        "load_state_dict; StanWindowedAdaptation cannot be instantiated (abstract); convergence "
+        "monitors and loggers are outside the statement",
     ])
 
 
